@@ -2,7 +2,7 @@
 \* Default bounds; every check overwrites this module in its scratch copy of spec/.
 SKinds == {"cmd", "oth", "blank", "txt", "long"}
 SMaxLen == 3
-SWrKinds == {"none", "err", "once", "short"}
+SWrKinds == {"none", "err", "once", "short", "shortonce"}
 SRdOn == TRUE
 SBar == {TRUE, FALSE}
 ====
